@@ -4,7 +4,7 @@ CONSTANTS
   MaxEpochs = 2
   MaxSides = 1
   MaxSideLen = 2
-  MaxIv = 3
+  MaxIv = 2
   MaxStart = 1
 INVARIANT RefPrefix
 INVARIANT RefFinal
